@@ -78,12 +78,17 @@ exception Gave_up
 
 let read_call r =
   let w = word r in
+  (* @<k> names the caller's vector object that carries the region: in the model a region is a value, and no call changes its caller's *)
+  let w = match Stdlib.String.index_opt w '@' with Some i -> Stdlib.String.sub w 0 i | None -> w in
   let w, throw_at =
     match Stdlib.String.index_opt w '!' with
     | Some i -> Stdlib.String.sub w 0 i, int_of_string (Stdlib.String.sub w (i + 1) (Stdlib.String.length w - i - 1))
     | None -> w, 0 in
-  let m = parse_method (coq_string w) in
+  (* dflt: Integrate_MC(func, region, ncalls) with method = "Vegas" by default; dflt2: Integrate_MC(func, region) with ncalls = 10000 as well *)
+  let defaults = (match w with "dflt" -> 1 | "dflt2" -> 2 | _ -> 0) in
+  let m = parse_method (coq_string (if defaults > 0 then "Vegas" else w)) in
   let seed = integer r in let ncall = integer r in let dim = integer r in
+  let ncall = if defaults = 2 then 10000 else ncall in
   let region = List.init (2 * dim) (fun _ -> num r) in
   let e = parse_fexpr r in
   { m; throw_at; seed; ncall; region; e }
@@ -137,7 +142,7 @@ let handler r =
       put_fl (List.init k g)
   | "mc" ->
       let c = read_call r in
-      if put_res_opt (run_call c true) then put_rec (List.length c.region / 2)
+      if put_res_opt (run_call c true) then begin put_rec (List.length c.region / 2); put_i 0; put_i 0 end
   | "hist" ->
       let nh = integer r in
       let hs = List.init nh (fun _ -> read_call r) in
@@ -150,10 +155,52 @@ let handler r =
              | [] -> ""
              | h :: t -> (match run_call h false with Ok v -> (if v = None then incr nab); go t | Exit -> "EXIT" | OOB -> "OOB" | Fuel -> "FUEL") in
            (match go hs with
-            | "" -> (match run_call c false with Ok (Some b) -> put_f a; put_f a; put_f b; put_i !nab | _ -> put_w "MODELERR observed_call_failed")
+            | "" -> (match run_call c false with Ok (Some b) -> put_f a; put_f a; put_f b; put_i !nab; put_i 0 | _ -> put_w "MODELERR observed_call_failed")
             | w -> put_w w)
        | Ok None -> put_w "MODELERR observed_call_throws"
        | Exit -> put_w "EXIT" | OOB -> put_w "OOB" | Fuel -> put_w "FUEL")
+  | "nested" ->
+      (* the integrand of the outer call multiplies its expression by the value of the inner call, which it runs at every evaluation
+         (the extracted integrators call their integrand once per evaluation, in order).  Only Vegas owns statics: when the inner call
+         is Vegas it advances them at every evaluation and the outer call (plain Monte Carlo or Miser) hands back the ones it was given,
+         which are dropped; when the outer call is Vegas the inner one leaves them alone.  (Vegas inside Vegas is not generated.) *)
+      let _shared = integer r in
+      let outer = read_call r in
+      let inner = read_call r in
+      let run_inner () =
+        match integrate_mc fops (us_of_seed inner.seed) !state inner.m (integrand inner.e false) inner.region (z_of_int inner.ncall) with
+        | Ok (v, s) -> state := s; Some v
+        | _ -> None in
+      (match run_inner () with
+       | None -> put_w "MODELERR inner_call_failed"
+       | Some a ->
+           state := vstate0 fops;
+           let ninner = ref 0 and bad = ref false in
+           let f pt =
+             let v = integrand outer.e false pt in
+             incr ninner;
+             match run_inner () with Some w -> v *. w | None -> bad := true; nan in
+           let s0 = !state in
+           (match integrate_mc fops (us_of_seed outer.seed) s0 outer.m f outer.region (z_of_int outer.ncall) with
+            | Ok (v, _) when not !bad -> put_f a; put_f v; put_i !ninner; put_i 0; put_f a; put_i 0
+            | Ok _ -> put_w "MODELERR inner_call_failed"
+            | Exit -> put_w "EXIT" | OOB -> put_w "OOB" | Fuel -> put_w "FUEL"))
+  | "front3s" ->
+      let m = parse_method (coq_string (word r)) in
+      let seed = integer r in let p = z_of_int (integer r) in
+      let no_boost _ _ _ _ = failwith "nested methods are modelled in C13" in
+      let mc m f region ncalls =
+        match integrate_mc fops (us_of_seed seed) !state m f region ncalls with
+        | Ok (v, s) -> state := s; Ok v
+        | Exit -> Exit | OOB -> OOB | Fuel -> Fuel in
+      let r1 = num r in let r2 = num r in let c1 = num r in let c2 = num r in let f1 = num r in let f2 = num r in
+      let e = parse_fexpr r in
+      let f x y z =
+        let v = integrand e true [x; y; z] in
+        let nrm = sqrt (x *. x +. y *. y +. z *. z) in
+        see 3 nrm; (if nrm > 0.0 then see 4 (z /. nrm));
+        v in
+      if put_res (integrate_3d_spherical fops no_boost mc m f r1 r2 c1 c2 f1 f2 p) then put_rec 5
   | ("front2d" | "front3d") as op ->
       let m = parse_method (coq_string (word r)) in
       let seed = integer r in let p = z_of_int (integer r) in
